@@ -11,9 +11,15 @@ CLAIMED = {
  "C07": ("bounded model checking (Kani/CBMC+CaDiCaL): differential check of every constructor's byte image against an independent spec offset/width table with symbolic arguments",
          "All argument values of the 12 sized boot-information constructors, 10 sized header-tag constructors, both header constructors and the DST constructors (memory map <= 2 areas, SMBIOS/network/EFI map <= 9 bytes, EFI descriptors <= 1, framebuffer 3 types with <= 2 colours, information request <= 3, strings <= 5 bytes): type == ID == spec number, exact unpadded size, little-endian image, accessor read-back, byte view obtainable at every address satisfying the type's alignment.",
          "dev-profile semantics; content lengths bounded as stated; ElfSectionsTag::new excluded (Kani ICE on its layout)"),
+ "C09": ("bounded model checking (Kani/CBMC+CaDiCaL): header region = one exact-size symbolic memory object, CBMC pointer/bounds checks + extent assertions, unwinding assertions",
+         "Fully symbolic 56-byte headers (valid magic/checksum, enumerated fields defined along the spec walk): load, tag walk, all ten typed getters with all accessors incl. the information-request list; reads outside the object or slices outside their tag fail; controlled panics allowed.",
+         "dev-profile semantics; header <= 56 bytes; Debug formatters: thorough tier / compositional"),
  "C10": ("bounded model checking (Kani/CBMC+CaDiCaL): header load on a symbolic 64-byte region vs. decision table; checksum law over three full-width symbolic words",
          "load(): all magic/checksum/length<=64 words, both architectures, outcome equals the specified precedence table, no panic. calc_checksum: congruence and absence of panic for all 2^32 x 2 x 2^32 inputs.",
          "dev-profile semantics; architecture word in {0,4}; region <= 64 bytes"),
+ "C11": ("bounded model checking (Kani/CBMC+CaDiCaL): lock-step spec walk and differential field decode for the header crate",
+         "Valid 56-byte headers: accessors return stored magic/arch/length/checksum, iterator == spec walk from offset 16 (address, type, flags, size, payload extent, exhaustion); every field of the 10 header-tag kinds == little-endian decode at the specified offset; first match / absence over all orders of three tags; information-request lists of 0..5; no panic allowed.",
+         "dev-profile semantics; header <= 56 bytes"),
  "C14": ("bounded model checking (Kani/CBMC+CaDiCaL) of BytesRef::try_from / ref_from_slice for four header kinds on symbolic sub-slices vs. precedence oracle; full-width rounding lemma",
          "All slices buf[a..a+len], a in 0..8, len<=40, all contents and declared sizes: error precedence, address identity, payload extent and bytes, size_of_val == round8(declared) <= len; object-bounds checks of the model catch any view past the slice.",
          "dev-profile semantics; slice <= 40 bytes; enumerated header fields hold defined values"),
@@ -23,6 +29,9 @@ CLAIMED = {
  "C03": ("bounded model checking (Kani/CBMC+CaDiCaL): lock-step comparison of TagIter with a spec walk written in the harness over fully symbolic regions",
          "All tag sequences in 48-byte (thorough: 32/64) regions: address identity, stored type/size, payload extent, end at region end, exhaustion, clone/fresh-iterator agreement, module iterator = type-3 subsequence; non-tiling walks must panic (NORETURN + reachable panic).",
          "dev-profile semantics; region <= 64 bytes (<= 7 tags)"),
+ "C04": ("bounded model checking (Kani/CBMC+CaDiCaL): differential check of every getter and field accessor against an independent spec offset/width table on symbolic tag bytes; first-match over symbolic tag orders",
+         "One conformant tag per region with every field byte symbolic for 20 tag kinds (VBE field-by-field in the thorough tier): accessor == little-endian decode at the specified offset, RSDP checksum validity == byte sum, framebuffer colour info for the three types, unknown type byte -> error carrying it (all 256), EFI-map withholding, first match / absence over all orders of three tags; no panic allowed.",
+         "dev-profile semantics (enum-typed framebuffer type byte: see C08); <= 3 tags per region; ELF getters in C19"),
  "C05": ("bounded model checking (Kani/CBMC+CaDiCaL): fat-pointer metadata and accessor extents of every DST kind vs. (size - fixed)/elem for symbolic sizes",
          "Declared size 8..72 for each variable-length kind of both crates (ELF: see C19): element count, start offset, size_of_val == round8(size); sizes below the fixed part or with a remainder must panic.",
          "dev-profile semantics; size <= 72; ElfSectionsTag not compilable by Kani (layout ICE) - handled in C19"),
